@@ -72,6 +72,8 @@ var c05Replacements = []Flags{
 	{R: "with space"},
 	{REmpty: true},
 	{R: "<&> line1\nline2\ttab \x1b[31mred\x1b[0m del\x7f bel\a vt\v nonprintable\U000e0001 ls\u2028"},
+	// every backslash starts something a string-unquoting routine understands (Go / JSON / C escapes), plus printf verbs
+	{R: `C:\temp\new \u0041\x41 \\ %s %d 100%%`},
 	{R: customReplacement},
 	{R: "x@y.zz"},
 	{R: "$dollar"},
@@ -79,7 +81,7 @@ var c05Replacements = []Flags{
 }
 
 func c05FlagSets(c *Ctx, ns string) (main []Flags, outer []Flags) {
-	reps := c05Replacements[:6]
+	reps := c05Replacements[:7]
 	if c.Thorough() {
 		reps = c05Replacements
 	}
